@@ -144,6 +144,8 @@ def c01(ctx, api):
                                          surface_cfg(6, 'C01'),
                                          simulate=sim, timeout=1200)
     acc.add('GenSurface -simulate depth<=6', st, summ, exhaustive=False)
+    st, summ = api['run_tlc_to_harness'](ctx, 'spellings', 'GenSlice', cfg(constants={'Emit': 'TRUE', 'Prop': '"C01"', 'MaxN': 1}), timeout=1500)
+    acc.add('GenSlice (n <= 1) with the integer-literal spelling family (leading zeros, -0) on 12-element arrays and strings', st, summ)
     tv = api['run_trace_validation'](ctx, 'traces', 6000 if thorough else 1500, ctx['seed'])
     acc.add_traces('trace validation: the compliance corpus and randomly grown expressions/documents run through the real Search, '
                    'every recorded outcome checked by TLC against Admissible(expr, doc)', tv)
@@ -327,6 +329,13 @@ def c04(ctx, api):
                                              harness_args=['-alphabets', os.path.join(root, 'spec', 'pools', 'Alphabets.alph'),
                                                            '-alpha', alpha, '-maxlen', str(n)])
         acc.add('GenChars %s alphabet: every concatenation of <= %d lexemes' % (alpha, n), st, summ)
+    ctx['harness_env'] = {'VERIF_DEEP': '100000'}
+    try:
+        st, summ = api['run_tlc_to_harness'](ctx, 'long', 'GenCost', cfg(constants={'Emit': 'TRUE', 'Prop': '"C04"'}), timeout=3000,
+                                             harness_args=['-only', 'scale', '-timeout', '120s', '-workers', '8'])
+    finally:
+        ctx['harness_env'] = {}
+    acc.add('long members of the grammar: 12 repetition families (nested to 100,000 levels, flat to 300,000 repetitions) must compile', st, summ)
     return acc.result('every concatenation of at most k lexemes of each alphabet is compiled by the real library (the harness '
                       'enumerates them itself) and compared with the static outcome of the specification, which TLC computed for '
                       'the same enumeration (TLC prints only the texts that are not plain syntax errors); a case is non-trivial '
@@ -410,7 +419,7 @@ def c07(ctx, api):
     ctx['harness'] = ctx['harness_race']
     ctx['harness_env'] = {'GORACE': 'halt_on_error=1 exitcode=66'}
     try:
-        consts2 = dict(consts, Gates=1, NCallSets=8)
+        consts2 = dict(consts, Gates=0, NCallSets=8)
         st, summ = api['run_tlc_to_harness'](ctx, 'race', 'APIConc', cfg(constants=consts2), timeout=3000,
                                              harness_args=['-only', 'race', '-timeout', '120s', '-workers', '4'])
     finally:
